@@ -31,9 +31,12 @@ def make_judge(kinds=None, extra=None):
 
 def _judge_one(args):
     l, o, kinds, extra = args
-    v = refdev.judge_history(l, o, kinds)
-    if v is None and extra:
-        v = extra(l, o, None)
+    try:
+        v = refdev.judge_history(l, o, kinds)
+        if v is None and extra:
+            v = extra(l, o, None)
+    except Exception as e:       # an oracle that cannot read an unexpected output must not end the run: recorded, not judged
+        return {"__oracle_error__": repr(e)[:200]}
     return v
 
 
@@ -51,6 +54,9 @@ def oracle_pass(rep, lines, kinds=None, extra=None, known=None, maxrep=3):
     n = 0
     for l, o, v in zip(lines, io, verdicts):
         if v is None:
+            continue
+        if "__oracle_error__" in v:
+            rep.cov.setdefault("oracle_errors", []).append({"case": l[:300], "error": v["__oracle_error__"]})
             continue
         if known and known(l, o, v):
             continue
